@@ -127,15 +127,19 @@ func (n *Nat) EuclideanDivVarTime(remainder, numerator, denominator *Nat) ct.Boo
 	nn := (*saferith.Nat)(numerator)
 	dd := saferith.ModulusFromNat((*saferith.Nat)(denominator))
 
-	var qq saferith.Nat
+	// The outputs may alias the inputs: finish reading numerator and
+	// denominator before writing to n or remainder.
+	numeratorLen := numerator.AnnouncedLen()
+	var qq, rr saferith.Nat
 	qq.Div(nn, dd, -1)
-	((*saferith.Nat)(n)).SetNat(&qq)
-	((*saferith.Nat)(n)).Resize(min(numerator.AnnouncedLen(), numerator.AnnouncedLen()-dd.BitLen()+2))
 	if remainder != nil {
-		var rr saferith.Nat
 		rr.Mul((*saferith.Nat)(denominator), &qq, -1)
 		rr.Sub(nn, &rr, -1)
 		rr.Resize(dd.BitLen())
+	}
+	((*saferith.Nat)(n)).SetNat(&qq)
+	((*saferith.Nat)(n)).Resize(min(numeratorLen, numeratorLen-dd.BitLen()+2))
+	if remainder != nil {
 		((*saferith.Nat)(remainder)).SetNat(&rr)
 	}
 
